@@ -160,6 +160,9 @@ def runtime_battery():
                   note="MIN % -1 and MIN / -1"),
          Scenario("A Y\n(1 << 64) X\n(1 >> 65) X\n(9223372036854775807 + 1) X\n(-%s) X\n" % lit(-(1 << 63)), S,
                   default_answer=[0, 0], note="overflowing arithmetic"),
+         Scenario("A D Y\n5 (0-1) X\n(1<<63) 7 (0-1)\n", [("in", "A", 64, 0), ("bidir", "D", 64, 0), ("out", "Y", 64)],
+                  default_answer=[0, 0], note="64-bit inputs, bidirectional signals and outputs"),
+         Scenario("A Y\n5 X\n(0-1) 9\n", [("in", "A", 63, 0), ("out", "Y", 63)], default_answer=[0], note="63-bit signals"),
          Scenario("A B C Y\nX X X 1\n", [("in", "A", 1, 0), ("in", "B", 1, 0), ("in", "C", 1, 0), ("out", "Y", 8)],
                   default_answer=[1], note="three X inputs"),
          Scenario("A B C D Y\nX X X X 1\nC X X 0 X\n", [("in", "A", 1, 0), ("in", "B", 1, 0), ("in", "C", 1, 0),
@@ -281,3 +284,72 @@ def expansion_no_panic(O):
 def frame_discipline(O):
     from . import C01
     C01.interpreter_arms(O)
+
+
+@obligation("C10/generator-not-held", profiles=("dev",),
+            desc="the context's generator lives in a RefCell: in every function that borrows it (and in func_random, its user) "
+                 "nothing but the generator itself is called while the borrow is alive - no expression is evaluated, no closure "
+                 "of the caller runs - so a nested random(..) can never meet an outstanding borrow (RefCell panics on that); "
+                 "borrow_mut itself never finds the cell borrowed")
+def generator_not_held(O):
+    import re
+    from .. import cellmodel
+    from . import dri
+    m = O.mir
+    R = dri.Rep({"family": "runtime", "what": "generator borrow"},
+                [C08.expr_scenario(t, "nested random %s" % t) for t in
+                 ("random(random(8)+2)", "random(ite(1, random(4)+2, 3))", "random(2 + random(3) * random(3))", "ite(random(2), random(random(5)+2), 1)")]
+                + runtime_battery(), runtime_judge)
+    targets = []
+    borrowers = set()
+    for name, f in m.funcs.items():
+        if f.kind != "fn":
+            continue
+        for bb, (stmts, term) in f.blocks.items():
+            if term and term[0] == "call" and re.search(r"RefCell::<[^>]*>::borrow(_mut)?$|RefCell::borrow(_mut)?$", str(term[2])):
+                borrowers.add(name)
+    short = set(re.sub(r"::\{closure#\d+\}$", "", b).split("::")[-1] for b in borrowers)
+    for name, f in m.funcs.items():
+        if f.kind != "fn" or "::fmt" in name:
+            continue
+        if name in borrowers:
+            targets.append(f)
+            continue
+        for bb, (stmts, term) in f.blocks.items():
+            if term and term[0] == "call" and any(re.search(r"(::|^)%s(::<.*>)?$" % re.escape(s_), str(term[2])) for s_ in short):
+                targets.append(f)
+                break
+    if not targets:
+        O.inconclusive("no function borrows a RefCell: the obligation does not know where the generator lives")
+        return
+    ALLOWED = re.compile(r"gen_range|as Rng>|as RngCore>|SeedableRng|seed_from_u64|deref(_mut)?$|<Range(Inclusive)? as ")
+    nb = 0
+    for fn in targets:
+        eng = O.engine()
+        cellmodel.install(eng)
+        eng.keep_events(r"^Expr::eval$")
+        eng.max_paths = 5000
+        paths = O.explore(eng, fn)
+        for p in paths:
+            eng.focus(p)
+            if p.outcome == "panic" and "RefCell already" in (p.detail or ""):
+                R.fail(O, p, "%s borrows the generator while it is already borrowed" % fn.name.split("::")[-1])
+                continue
+            during = cellmodel.events_while_borrowed(p)
+            nb += 1 if p.state.extra.get("cell_log") else 0
+            for ev, k in during:
+                if not ALLOWED.search(ev.norm):
+                    R.fail(O, p, "%s calls %s while the generator is borrowed" % (fn.name.split("::")[-1], ev.norm.split("::")[-1][:40]))
+                    break
+    if nb == 0:
+        O.inconclusive("vacuous: no explored path borrows the cell")
+    O.note("functions explored: %s; %d paths with a borrow" % (sorted(set(f.name.split("::")[-1] for f in targets)), nb))
+
+
+@obligation("C10/masks-no-panic", profiles=("dev", "release"),
+            desc="the per-signal closures that reduce a row's numbers to the signal width (inputs and expected values) return "
+                 "for every width 1..=64 and every value - no shift, subtraction or index in them can panic")
+def masks_no_panic(O):
+    from . import C07
+    C07.input_mask(O)
+    C07.expected_mask(O)
